@@ -37,7 +37,7 @@ func c17(c *eng.Ctx, r *eng.Report) {
 		if ok {
 			ok = false
 			for _, cd := range eng.CondsAt(pushes[0]) {
-				if call, isC := cd.V.(*ssa.Call); isC && call.Call.StaticCallee() == ex && !cd.True {
+				if call, isC := cd.V.(*ssa.Call); isC && (call.Call.StaticCallee() == ex || forwardsTo(call.Call.StaticCallee(), ex)) && !cd.True {
 					// same hash as the pushed transaction's
 					if strings.HasSuffix(eng.Desc(call.Call.Args[1]), "tx.Hash") {
 						ok = true
@@ -817,4 +817,38 @@ func c17ReAddSeesOnlyThePool(c *eng.Ctx, r *eng.Report) {
 		}
 	}
 	r.Check(bad == "", rule, "re-add:pool-only", c.Pos(add.Pos()), fmt.Sprintf("%d service functions under (*TxPool).add, none reads account state", n), "the admission path shared by submission and by UnMarkExecuted consults account state ("+bad+"): blockChain.remove calls UnMarkExecuted while the latest state is still the one after the removed block, so the block's own nonce-checked transactions are judged against nonces they themselves advanced and are refused — after the reorg they are neither marked executed nor pending, and can never be packed again")
+}
+
+// forwardsTo: f's body is `return target(args...)` with f's own parameters, in
+// order (the exported spelling of an unexported method).
+func forwardsTo(f, target *ssa.Function) bool {
+	if f == nil || target == nil || len(f.Blocks) != 1 {
+		return false
+	}
+	var call *ssa.Call
+	for _, in := range f.Blocks[0].Instrs {
+		switch x := in.(type) {
+		case *ssa.Call:
+			if call != nil || x.Call.StaticCallee() != target {
+				return false
+			}
+			call = x
+		case *ssa.Return:
+			if call == nil || len(x.Results) != 1 || x.Results[0] != ssa.Value(call) {
+				return false
+			}
+		case *ssa.DebugRef:
+		default:
+			return false
+		}
+	}
+	if call == nil || len(call.Call.Args) != len(f.Params) {
+		return false
+	}
+	for i, a := range call.Call.Args {
+		if a != ssa.Value(f.Params[i]) {
+			return false
+		}
+	}
+	return true
 }
